@@ -321,6 +321,11 @@ class Program:
         g = self.gen
         evo = self.world["device"] == "evo"
         r = rng.random()
+        if r < 0.40 and intent in ("reject.underflow", "reject.overflow") and rng.random() < 0.2:
+            # steps that overlap within one column: refused only when booked in the order of the records
+            ch = g.gen_chain_transfer(sess, intent)
+            if ch is not None:
+                return ch
         if r < 0.40:
             return g.gen_transfer(sess, intent if intent in ("ok", "reject.underflow", "reject.overflow", "reject.oversize") else "ok")
         if r < 0.55:
@@ -462,6 +467,8 @@ def explore(rng, tier, stats):
     violations.extend(res.violations)
     if len(ops) > 1 and res.failed and len(ops) <= prog.n_prefix:
         stats.probes["prefix_op_rejected_unexpectedly"] += 1
+    if ops and str(ops[-1].get("intent", "")).endswith("@chain"):
+        stats.probes["chain_transfer_" + (res.exc_type or "accepted")] += 1
     if res.failed and ops:
         tk = ops[-1]["op"]
         stats.probes[f"rejected_in_{tk}"] += 1
